@@ -674,7 +674,9 @@ pub fn run_tamper(data: &[u8], ctx: &mut Ctx) -> CaseResult {
                 for _ in 0..2 {
                     let mut um = Message::from_octets(tiny_message(get_id(&req), 0x8400, 3, 1)).unwrap();
                     let g = o_client(&c.answer(&mut um, t48(t)));
-                    vensure!(g == O::SrvUnsigned, format!("client-sequence:unsigned-message-after-rejected-first-{:?}-expected-SrvUnsigned", g), "after {}", detail(got));
+                    // (a sequence that fails for good may report the stored
+                    // earlier error instead of judging the message afresh)
+                    vensure!(g != O::Accept, "client-sequence:unsigned-message-after-rejected-first-accepted", "an unsigned message was accepted after {}", detail(got));
                 }
                 ctx.class("unsigned-after-rejected-first-still-rejected");
                 // ... and when the rejection happened before any digest work
@@ -684,9 +686,15 @@ pub fn run_tamper(data: &[u8], ctx: &mut Ctx) -> CaseResult {
                 if before_digest {
                     let mut gm = Message::from_octets(signed_of_tampered.clone()).unwrap();
                     let g = o_client(&c.answer(&mut gm, t48(t)));
-                    vensure!(g == O::Accept, format!("client-sequence:genuine-first-answer-after-rejected-message-{:?}-expected-Accept", g), "after {}", detail(got));
-                    check_restored("client-sequence", gm.as_slice(), &pre_of_tampered)?;
-                    ctx.class("genuine-first-after-rejected-first-verified");
+                    // No documentation promises that a ClientSequence stays
+                    // usable after a rejection (unlike ClientTransaction): a
+                    // refusal here is a fail-stop sequence, not a violation.
+                    if g == O::Accept {
+                        check_restored("client-sequence", gm.as_slice(), &pre_of_tampered)?;
+                        ctx.class("genuine-first-after-rejected-first-verified");
+                    } else {
+                        ctx.class("sequence-fails-for-good-after-rejection");
+                    }
                 }
             }
             if got == O::Accept {
